@@ -153,7 +153,7 @@ def encVerdict : Verdict → Json
     the callback (operation `op`) carried `LocationForPC` -/
 def cbName (ops : List Op) (op fn : Nat) : Nat :=
   match ops[op]? with
-  | some (.provide _ _ o) => o.loc.getD fn
+  | some (.provide _ _ o) => (match o.loc with | some 0 => fn | some g => g | none => fn)   -- 0: an address of no function
   | _ => fn
 
 def encEvent (same : Bool) (ops : List Op) : Event → Json
